@@ -760,6 +760,8 @@ func (w *world) exec(f []string, now int) string {
 }
 
 type caseResult struct {
+	pureLate bool // this attempt is timing-invalid although the canary and the harness's own operations were on time
+	pureCnt  int  // number of such attempts of the case
 	lines   []string
 	answers []string
 	finds   []finding
@@ -777,6 +779,12 @@ func runOnce(lines []string, unit time.Duration) (res caseResult) {
 	w := &world{unit: unit, tasks: map[int]*task{}, idReg: map[int]*task{}, rel: map[int]chan struct{}{}, armTags: map[int]bool{}}
 	stop := make(chan struct{})
 	var maxOver atomic.Int64
+	// disturbed is closed as soon as the attempt is known to be timing-invalid for a reason that has nothing to do with
+	// the code under test (the canary overslept: the whole process, or the machine, stood still): the attempt is given
+	// up at once instead of being played to its end (stalls of 10-100 ms of the whole virtual machine were measured a
+	// few times per 10 s while other checks run; they hit every case that is running)
+	disturbed := make(chan struct{})
+	var disturbOnce sync.Once
 	canary := func() {
 		step := unit / 4
 		for {
@@ -788,6 +796,9 @@ func runOnce(lines []string, unit time.Duration) (res caseResult) {
 			}
 			if over := time.Since(t0) - step; int64(over) > maxOver.Load() {
 				maxOver.Store(int64(over))
+				if over > unit/4 {
+					disturbOnce.Do(func() { close(disturbed) })
+				}
 			}
 		}
 	}
@@ -819,7 +830,35 @@ func runOnce(lines []string, unit time.Duration) (res caseResult) {
 			time.Sleep(d)
 		}
 	}
+	// the main goroutine's waits between operations end early when the attempt is disturbed
+	sleepOrDisturbed := func(t time.Time) {
+		if d := time.Until(t); d > 0 {
+			tm := time.NewTimer(d)
+			select {
+			case <-tm.C:
+			case <-disturbed:
+				tm.Stop()
+			}
+		}
+	}
+	giveUp := func() bool {
+		select {
+		case <-disturbed:
+			return true
+		default:
+			return w.maxLate > unit/4
+		}
+	}
 	for _, line := range lines {
+		if w.te != nil && giveUp() {
+			w.mu.Lock()
+			res.finds = append([]finding(nil), w.finds...)
+			w.mu.Unlock()
+			res.hist[fmt.Sprintf("invalid:%s@%d", map[bool]string{true: "late-op", false: "canary"}[w.maxLate > unit/4], unit.Milliseconds())]++
+			res.hist["attempt-given-up-early"]++
+
+			return res
+		}
 		f := strings.Fields(line)
 		if len(f) == 0 {
 			res.answers = append(res.answers, "bad-op")
@@ -849,7 +888,10 @@ func runOnce(lines []string, unit time.Duration) (res caseResult) {
 		}
 		if f[0] == "end" && len(f) == 2 {
 			T, _ := strconv.Atoi(f[1])
-			sleepUntil(w.at(T).Add(unit / 2))
+			sleepOrDisturbed(w.at(T).Add(unit / 2))
+			if giveUp() {
+				continue // back to the head of the loop, which gives the attempt up
+			}
 			res.answers = append(res.answers, w.finish(T))
 
 			continue
@@ -861,9 +903,15 @@ func runOnce(lines []string, unit time.Duration) (res caseResult) {
 			continue
 		}
 		target := w.at(now)
-		sleepUntil(target)
+		sleepOrDisturbed(target)
+		if giveUp() {
+			continue
+		}
 		if late := time.Since(target); late > w.maxLate {
 			w.maxLate = late
+		}
+		if giveUp() {
+			continue
 		}
 		// watchdog: an operation of the public API (and the Size() that follows it) returns at once; if it does not
 		// come back within seconds the case hangs (a leaked lock, ...): that is a finding with this case as replay,
@@ -908,6 +956,15 @@ func runOnce(lines []string, unit time.Duration) (res caseResult) {
 	}
 	res.finds = w.finds
 	res.valid = time.Duration(maxOver.Load()) <= unit/4 && w.maxLate <= unit/4 && !w.timeout.Load() && !w.slowCall.Load() && !w.glitch
+	// why an attempt is timing-invalid (histogram invalid:<reason>@<unit in ms>, evidence of what the machine did)
+	machine := time.Duration(maxOver.Load()) > unit/4 || w.maxLate > unit/4
+	for k, bad := range map[string]bool{"canary": time.Duration(maxOver.Load()) > unit/4, "late-op": w.maxLate > unit/4,
+		"timeout": w.timeout.Load(), "slow-call": w.slowCall.Load(), "off-grid": w.glitch, "off-grid-only": !res.valid && !machine} {
+		if bad {
+			res.hist[fmt.Sprintf("invalid:%s@%d", k, unit.Milliseconds())]++
+		}
+	}
+	res.pureLate = !res.valid && !machine
 
 	return res
 }
@@ -1148,9 +1205,25 @@ func (w *world) finish(T int) string {
 func runCaseLines(lines []string, unit time.Duration) caseResult {
 	var res caseResult
 	var robust []finding
-	for try := 1; try <= 4; try++ {
+	hist := map[string]int{}
+	pure := 0
+	// A timing-invalid attempt is repeated: three times with the same unit (most disturbances are short stalls of the
+	// whole machine that come at random instants - a longer attempt only meets more of them), then with larger units
+	// (a machine that is overloaded throughout needs the wider tolerance).
+	base := unit
+	for try, mult := range []time.Duration{1, 1, 1, 2, 2, 4, 8} {
+		try++
+		unit = base * mult
 		res = runOnce(lines, unit)
 		res.tries = try
+		if res.pureLate {
+			pure++
+		}
+		res.pureCnt = pure
+		for k, v := range res.hist {
+			hist[k] += v
+		}
+		res.hist = hist
 		if res.valid {
 			res.finds = append(robust, res.finds...)
 
@@ -1161,7 +1234,6 @@ func runCaseLines(lines []string, unit time.Duration) caseResult {
 				robust = append(robust, f)
 			}
 		}
-		unit *= 2
 	}
 	res.robust = robust
 
@@ -2716,6 +2788,9 @@ func emit(r *rec, sub uint64, res caseResult) {
 		r.Fail(f.oracle, f.detail+"; ops="+strings.Join(res.lines, " | "), f.sig)
 	}
 	r.Count(fmt.Sprintf("tries:%d", res.tries))
+	for k, v := range res.hist {
+		r.CountN(k, v)
+	}
 	last := res.answers[len(res.answers)-1]
 	if strings.Count(last, ":") >= 2 {
 		h := sha256.Sum256([]byte(strings.Join(res.lines, "\n")))
@@ -2730,6 +2805,10 @@ func execDescriptor(j job, unit time.Duration) *rec {
 		res := runCaseLines(strings.Split(strings.TrimPrefix(j.Desc, "seq "), " | "), unit)
 		if !res.valid {
 			r.Invalid = true
+			r.Suspect = res.pureCnt >= 3
+			for k, v := range res.hist {
+				r.CountN(k, v)
+			}
 			for _, f := range res.robust {
 				r.Fail(f.oracle, f.detail+"; ops="+strings.Join(res.lines, " | "), f.sig)
 			}
@@ -2737,6 +2816,7 @@ func execDescriptor(j job, unit time.Duration) *rec {
 			return r
 		}
 		emit(r, j.Sub, res)
+		r.Suspect = res.pureCnt >= 3
 
 		return r
 	}
@@ -2900,24 +2980,60 @@ func main() {
 	}
 	// sequential cases: 64 at a time in a child, a few hundred per child; stress parts: one child each
 	seq := 0
-	dropped := 0
+	dropped, suspects, secondPass := 0, 0, 0
+	phase := map[string]float64{} // wall seconds per part of the run (evidence: where the time goes)
+	t0 := time.Now()
 	var droppedSamples []string
 	var kept []hx.Finding
-	const chunk = 512
+	const chunk = 1 << 20 // one child for all of them (a child that dies is replaced, see runChunk)
+	results := make([]*rec, 0, len(seqJobs))
 	for pos := 0; pos < len(seqJobs); pos += chunk {
-		part := seqJobs[pos:min(pos+chunk, len(seqJobs))]
-		for i, res := range runChunk(r.OutDir, &seq, part, 64, unit) {
-			if res.Invalid {
-				dropped++
-				if len(droppedSamples) < 5 {
-					droppedSamples = append(droppedSamples, strings.TrimPrefix(part[i].Desc, "seq "))
-				}
-				kept = append(kept, res.Fails...)
-
-				continue
-			}
-			deliver(part[i], res)
+		results = append(results, runChunk(r.OutDir, &seq, seqJobs[pos:min(pos+chunk, len(seqJobs))], 64, unit)...)
+	}
+	phase["sequential-first-pass"] = float64(time.Since(t0).Milliseconds()) / 1000
+	// second pass: what stayed timing-invalid is measured once more, later and with less going on at the same time (a
+	// burst of other work on the machine is over by then); only what is invalid again is dropped
+	var again []int
+	for i, res := range results {
+		if res.Invalid {
+			again = append(again, i)
 		}
+	}
+	if secondPass = len(again); secondPass > 0 && secondPass <= 160 {
+		part := make([]job, len(again))
+		for k, i := range again {
+			part[k] = seqJobs[i]
+		}
+		for k, res := range runChunk(r.OutDir, &seq, part, 16, unit) {
+			if res.Invalid { // keep the robust findings and the histogram of both passes
+				res.Fails = append(results[again[k]].Fails, res.Fails...)
+			}
+			res.Suspect = res.Suspect || results[again[k]].Suspect
+			for c, v := range results[again[k]].Counts {
+				if strings.HasPrefix(c, "invalid:") {
+					res.Counts[c] += v
+				}
+			}
+			results[again[k]] = res
+		}
+	}
+	for i, res := range results {
+		if res.Suspect {
+			suspects++
+		}
+		if res.Invalid {
+			dropped++
+			if len(droppedSamples) < 5 {
+				droppedSamples = append(droppedSamples, strings.TrimPrefix(seqJobs[i].Desc, "seq "))
+			}
+			kept = append(kept, res.Fails...)
+			for c, v := range res.Counts {
+				r.CountN(c, v)
+			}
+
+			continue
+		}
+		deliver(seqJobs[i], res)
 	}
 	if len(kept) > 0 {
 		r.Case(0)
@@ -2929,17 +3045,53 @@ func main() {
 		}
 	}
 	r.Extra["timing_dropped_cases"] = dropped
+	r.Extra["timing_late_on_quiet_machine_cases"] = suspects
+	r.Extra["timing_second_pass_cases"] = secondPass
 	r.Extra["timing_dropped_samples"] = droppedSamples
-	if dropped*25 > len(seqJobs) {
-		// rare glitches of the machine are tolerated; systematic lateness is not
+	// Rare glitches of the machine are tolerated and so is an overloaded machine: an attempt during which the canary
+	// goroutine overslept or the harness's own operations were late says nothing about the code under test (such cases
+	// are repeated, 7 attempts and a second pass, and what stays invalid is dropped and counted).  What is not
+	// tolerated is systematic lateness of the implementation, which the grid rule would otherwise hide: cases of which
+	// three or more attempts were off the grid although the machine was on time (canary, own operations) - on the
+	// unchanged tree a single such attempt happens in well under 1 % of the cases.
+	if suspects*25 > len(seqJobs) {
 		r.Case(0)
 		r.Line("nop", "done")
-		r.Fail("harness", fmt.Sprintf("%d of %d cases stayed timing-invalid after 4 attempts: callbacks start late systematically, or the machine is overloaded", dropped, len(seqJobs)),
+		r.Fail("harness", fmt.Sprintf("%d of %d cases had three or more attempts in which polls, callbacks or Shutdown returns came more than a quarter unit late although the machine was on time (canary goroutine, the harness's own operations): the implementation is late systematically", suspects, len(seqJobs)),
 			map[string]string{"oracle": "timing-invalid-mass"})
 	}
 	r.Extra["unit_ms"] = unit.Milliseconds()
-	for _, j := range stressJobs {
-		deliver(j, runChunk(r.OutDir, &seq, []job{j}, 1, unit)[0])
+	phase["sequential"] = float64(time.Since(t0).Milliseconds()) / 1000
+	// the stress parts: one child each, three at a time (most of them wait most of the time; their limits are seconds),
+	// results in the order of the list
+	t2 := time.Now()
+	stressRes := make([]*rec, len(stressJobs))
+	stressPar := 3
+	if v, err := strconv.Atoi(os.Getenv("C18_STRESS_PAR")); err == nil && v > 0 {
+		stressPar = v
 	}
+	var pmu sync.Mutex
+	var swg sync.WaitGroup
+	sem := make(chan struct{}, stressPar)
+	for i := range stressJobs {
+		swg.Add(1)
+		sem <- struct{}{}
+		go func(i int) {
+			defer swg.Done()
+			defer func() { <-sem }()
+			t1 := time.Now()
+			own := seq + 100*(i+1) // file names of this part's children
+			stressRes[i] = runChunk(r.OutDir, &own, []job{stressJobs[i]}, 1, unit)[0]
+			pmu.Lock()
+			phase[strings.Fields(stressJobs[i].Desc)[0]] += float64(time.Since(t1).Milliseconds()) / 1000
+			pmu.Unlock()
+		}(i)
+	}
+	swg.Wait()
+	for i, j := range stressJobs {
+		deliver(j, stressRes[i])
+	}
+	phase["stress-parts-wall"] = float64(time.Since(t2).Milliseconds()) / 1000
+	r.Extra["phase_wall_s"] = phase
 	r.Finish()
 }
